@@ -35,6 +35,11 @@ SizedBase(id, n) ==
   IN [kind |-> "sign1", ext |-> ext, payload |-> pay, slots |-> <<n>>,
       tree |-> Arr(<<BstrW(Map(<<AlgP(n), <<UInt(4), Bstr(Seq0(KidFor(plen, n)))>>>>)), Map(<<>>), Bstr(pay), Bstr(Fill(1, n))>>)]
 
+\* deep structures: a value nested n arrays deep; a countersignature that carries a countersignature that carries ... (n levels)
+RECURSIVE DeepItem(_)
+DeepItem(n) == IF n = 0 THEN UInt(1) ELSE Arr(<<DeepItem(n - 1)>>)
+RECURSIVE CsChain(_)
+CsChain(n) == IF n = 0 THEN CsA ELSE Arr(<<BstrW(Map(<<A_ES256>>)), Map(<<<<UInt(11), (IF n % 2 = 0 THEN CsChain(n - 1) ELSE Arr(<<CsChain(n - 1)>>))>>>>), Bstr(<<n, 7>>)>>)
 \* base = [kind, tree, ext, payload (supplied by verifier when detached), bodyprot (standalone Signature only), slots = <<alg n ...>>]
 Base(id, n) ==
   CASE id = 1 -> [kind |-> "sign1", ext |-> <<>>, payload |-> <<1, 2>>, slots |-> <<n>>,
@@ -71,6 +76,11 @@ Base(id, n) ==
     [] id = 21 -> [kind |-> "sign", ext |-> <<>>, payload |-> <<1, 2>>, slots |-> <<n>>,           \* the same in a signer's protected bucket
                    tree |-> Arr(<<BstrW(Map(<<<<UInt(99), Tag(99999, Arr(<<UInt(1)>>))>>>>)), Map(<<>>), Bstr(<<1, 2>>),
                                   Arr(<<Arr(<<BstrW(Map(<<AlgP(n), <<UInt(98), Tag(32, Tstr(<<117>>))>>>>)), Map(<<>>), Bstr(Fill(1, n))>>)>>)>>)]
+    [] id = 22 -> [kind |-> "sign1", ext |-> <<>>, payload |-> <<1, 2>>, slots |-> <<n>>,          \* values nested 10 deep, in both buckets
+                   tree |-> Arr(<<BstrW(Map(<<AlgP(n), <<UInt(99), DeepItem(10)>>>>)), Map(<<<<UInt(98), DeepItem(10)>>>>), Bstr(<<1, 2>>), Bstr(Fill(1, n))>>)]
+    [] id = 23 -> [kind |-> "sign", ext |-> <<>>, payload |-> <<1, 2>>, slots |-> <<n>>,           \* a signer countersigned five levels deep (single and list forms alternate)
+                   tree |-> Arr(<<BstrW(Map(<<<<UInt(3), UInt(0)>>>>)), Map(<<>>), Bstr(<<1, 2>>),
+                                  Arr(<<Arr(<<BstrW(Map(<<AlgP(n)>>)), Map(<<<<UInt(11), CsChain(5)>>>>), Bstr(Fill(1, n))>>)>>)>>)]
     [] id = 18 -> [kind |-> "sign1", ext |-> Seq0(255), payload |-> <<1, 2>>, slots |-> <<n>>,      \* external data of 255 bytes (last one-byte length)
                    tree |-> Arr(<<BstrW(Map(<<AlgP(n)>>)), Map(<<>>), Bstr(<<1, 2>>), Bstr(Fill(1, n))>>)]
     [] id = 19 -> [kind |-> "sign1u", ext |-> Seq0(256), payload |-> Seq0(65535), slots |-> <<n>>,   \* payload of 65535 bytes (last two-byte length)
